@@ -458,3 +458,37 @@ def guarded(col, fn, key, what, replay):
             col.violation(f"{key}/raised:{type(e).__name__}", f"{what}: the library raised {e!r} at {where}", replay)
         else:
             raise
+
+
+def run_tlaps(module: str, scratch: str, timeout: int = 600) -> typing.Tuple[int, int]:
+    """Run the TLA+ proof system on spec/<module>.tla (copied to scratch); returns (obligations, proved)."""
+    d = tempfile.mkdtemp(prefix="tlaps_", dir=scratch)
+    shutil.copy(os.path.join(SPEC, module + ".tla"), d)
+    try:
+        p = subprocess.run(["tlapm", "--cleanfp", module + ".tla"], cwd=d, capture_output=True, text=True, timeout=timeout)
+    except (subprocess.TimeoutExpired, FileNotFoundError) as e:
+        raise MachineryFailure(f"tlapm could not be run on {module}: {e!r}")
+    out = p.stdout + p.stderr
+    m = re.search(r"All (\d+) obligations? proved", out)
+    if m:
+        return int(m.group(1)), int(m.group(1))
+    m = re.search(r"(\d+)/(\d+) obligations? failed", out)
+    if m:
+        return int(m.group(2)), int(m.group(2)) - int(m.group(1))
+    raise MachineryFailure(f"tlapm output not understood for {module}:\n{out[-1500:]}")
+
+
+def run_apalache(module: str, scratch: str, args: typing.List[str], timeout: int = 900) -> bool:
+    """apalache-mc check on spec/<module>.tla; True iff no error was reported."""
+    d = tempfile.mkdtemp(prefix="apa_", dir=scratch)
+    shutil.copy(os.path.join(SPEC, module + ".tla"), d)
+    try:
+        p = subprocess.run(["apalache-mc", "check", f"--out-dir={d}/out"] + args + [module + ".tla"], cwd=d, capture_output=True, text=True,
+                           timeout=timeout)
+    except (subprocess.TimeoutExpired, FileNotFoundError) as e:
+        raise MachineryFailure(f"apalache could not be run on {module}: {e!r}")
+    if "EXITCODE: OK" in p.stdout:
+        return True
+    if "EXITCODE: ERROR (12)" in p.stdout or "violat" in p.stdout.lower():
+        return False
+    raise MachineryFailure(f"apalache output not understood for {module}:\n{p.stdout[-1500:]}")
